@@ -5,6 +5,12 @@ import json, subprocess
 HOOK_COMMITS = []  # filled in as hook commits are made in /repo
 
 CHECKS = {
+ "C05": dict(cat="exploration", technique="runtime round-trip monitor over generated hostile values and graphs (Parse(String(v)) compared through accessor-based canonical values; WriteGraph->ReadIntoGraph compared as canonical sets)",
+   text="Sampled: tens of thousands (quick) to millions (thorough) of generated values inside the documented domain, biased to delimiter-like substrings, extreme numbers, zones and precisions, plus random graphs; held on what was generated, not on all inputs.",
+   note="Trusted: accessors of node/predicate/literal/triple, the harness's canonical projection; NaN and CR/LF inside graph files are outside the claim.", ref="DESIGN.md §5 C05"),
+ "C15": dict(cat="exploration", technique="runtime monitor (recover, well-formedness and re-parse oracle) over exhaustive short strings, templates, mutations and random strings fed to every text parser and the line reader",
+   text="Complete for all strings up to length 4 (quick) / 6 (thorough) over a 15-character delimiter alphabet and for the template grid; sampled for mutations and random strings; the reader is checked against files with a malformed line at a random position.",
+   note="Trusted: recover() sees every panic because the parsers start no goroutines; canonical projection for equality.", ref="DESIGN.md §5 C15"),
  "C17": dict(cat="exploration", technique="runtime invariant check of the live grammar tables + executed witness statements observed through ProcessStart probes in the real parser",
    text="The grammar is a finite table: every rule and every pair of alternatives of grammar.BQL()/SemanticBQL() is inspected at run time, and for each of the alternatives a concrete statement is parsed by the real parser while probes record which alternative fired; complete for the table, sampled for contexts.",
    note="Trusted: Element.Symbol()/Token() accessors, the harness's reference predictive recogniser (60 lines), the real lexer for rendering witnesses.", ref="DESIGN.md §5 C17"),
